@@ -53,8 +53,8 @@ def gen_refinement(H: Chooser, base: str, feat, finite=False):
         return ["IntList", [H.pick([-7, 0, 1, 2, 3, 42, 1000]) for _ in range(n)]]
     if base == "float":
         if H.draw(2) and not finite:
-            lo = H.pick([0.0, -1.0, 0.5, 10.0, 0, 1, -3])  # integer literals too, as in geml/grammars/sgp.py
-            return ["FloatRange", lo, lo + H.pick([0.0, 1.0, 0.25, 100.0, 9, 1])]
+            lo = H.pick([0.0, -1.0, 0.5, 10.0, 0, 1, -3, 0.1 + 0.2, 1e-12, 1 / 3])  # integer literals too, as in geml/grammars/sgp.py
+            return ["FloatRange", lo, lo + H.pick([0.0, 1.0, 0.25, 100.0, 9, 1, 0.0, 4e-12])]
         n = 1 + H.draw(3)
         return ["FloatList", [H.pick([0.0, -1.5, 0.1, 2.0, 1e-9]) for _ in range(n)]]
     if base == "str":
